@@ -237,6 +237,11 @@ F("CHAIN-numpydoc-untyped-return", ALLP,
   "chain: numpydoc hop with an untyped return entry (see NUMPYDOC-return-without-type)",
   ["Chain.NoExtraNames", "Chain.Summary", "Chain.Ret"], when={"k": "numpydoc"}, ret=[True, "none", ANY, ANY, ANY, ANY])
 
+F("CHAIN-function-None-fill-through-rest-loses-argparse-type", ALLP,
+  "chain function / method -> rest -> argparse: the function hop gives a typed parameter without default the default None, the "
+  "ReST text then says `Defaults to None`, and the argparse emitter writes `default='None'` without `type=`, so float / bool / int "
+  "come back as str",
+  ["Chain.Typ"], obs=["str"], when={"k": "argparse"}, slot=[["float", "bool", "int"], ANY, ANY, ANY, "absent"])
 F("CHAIN-class-negative-int-from-prose-as-float", ALLP,
   "chain: a `Defaults to -1` sentence left in the prose by an earlier hop is re-read by the class emitter without the declared "
   "type, so an int default is written as `-1.0` (see DOC-negative-int-as-float)",
